@@ -174,7 +174,11 @@ EXPORT errno_t _mbstowcs_s_chk(size_t *restrict retvalp, wchar_t *restrict dest,
 #endif
         }
     }
-    if (unlikely((char *)dest == src)) {
+    /* src starts inside dest: the conversion would overwrite what it still
+       has to read */
+    if (unlikely(dest && src >= (const char *)dest &&
+                 src < (const char *)(dest + dmax))) {
+        handle_werror(dest, dmax, "mbstowcs_s: overlapping objects", ESOVRLP);
         return RCNEGATE(ESOVRLP);
     }
 
